@@ -120,6 +120,11 @@ def run_playback_test(runner, ws, prop, h, test_src, test_name, profiles=("dev",
     env["CARGO_TARGET_DIR"] = os.path.join(runner.CACHE, "playback-target", prop)
     outcomes = {}
     for prof in profiles:
+        if prof == "release" and outcomes.get("dev") == "failed":
+            # already reproduced in the profile Kani models; the release-like build (a full
+            # second native build) is only consulted when the dev replay does not fail
+            outcomes["release"] = "skipped (reproduced in dev)"
+            continue
         cmd = ["cargo", "kani", "playback", "-Z", "concrete-playback", "-p", plan.GROUPS[h["group"]]["package"]]
         penv = dict(env)
         if prof == "release":
